@@ -20,4 +20,5 @@ func sidNum(s string) int {
 func producerProjection(*arrow_record.Producer) []any { return []any{} }
 func consumerProjection(*arrow_record.Consumer) []any { return []any{} }
 func producerNext(*arrow_record.Producer) int         { return 0 }
-func consumerIDs(*arrow_record.Consumer) []string    { return nil }
+func consumerIDs(*arrow_record.Consumer) []string     { return nil }
+func consumerOpenIDs(*arrow_record.Consumer) []string { return nil }
